@@ -203,6 +203,26 @@ class C06(Prop):
             irs = [X.model_ir(c) for c in cases]
             progs = X.build_programs(cases, irs, guard_shim=False)
             compiles += len(progs)
+            # multi-client shells are uncompilable verbatim (D-7); with the guard shim every other defect shows
+            mcs = [(c, ir) for c, ir in zip(cases, irs) if c['cfg']['multiclient']]
+            shim = X.build_programs([c for c, _ in mcs], [ir for _, ir in mcs], guard_shim=True)
+            compiles += len(shim)
+            for (c, _ir), p in zip(mcs, shim):
+                try:
+                    if p.ok or p.impl_err:
+                        continue
+                    log = p.log.replace('‘', "'").replace('’', "'")
+                    rec = {'case': X.strip(c), 'impl': log[-1200:], 'model': None,
+                           'failed': ['multi-client shell does not compile even with include guards added'], 'noshrink': True}
+                    p0, itf = X.port_events(c['_info'], c['cfg']['multiclient']['port'])
+                    rel = next(e for e in itf['events'] if e['name'] == c['cfg']['multiclient']['release'])
+                    if rel['_reply']['kind'] != 'void' and 'K-5' in known and \
+                            ('could not convert' in log or 'no match for' in log or 'no known conversion' in log):
+                        known_hits.append((known['K-5'], rec))
+                    else:
+                        failures.append(rec)
+                finally:
+                    p.cleanup()
             for c, p in zip(cases, progs):
                 shapes.append(case_hash([c['src'], c['cfg']]))
                 try:
